@@ -339,6 +339,7 @@ func frameCase(r *rand.Rand, o *hout.Out, idx int) {
 	type connCase struct {
 		msgs   [][]byte
 		chunks [][]byte
+		tail   []byte
 		outb   [][]byte
 		peer   net.Conn
 		h      *recHandler
@@ -373,6 +374,14 @@ func frameCase(r *rand.Rand, o *hout.Out, idx int) {
 			}
 			c.msgs = append(c.msgs, m)
 			stream = append(stream, m...)
+		}
+		if r.Intn(4) == 0 {
+			// the stream ends inside a message (C04_conservation): nothing more may be delivered, the model keeps
+			// exactly these bytes buffered
+			t := randMsg(r)
+			c.tail = t[:r.Intn(len(t))]
+			stream = append(stream, c.tail...)
+			o.Count("C04.partial-tail")
 		}
 		c.chunks = chunking(r, stream)
 		for i := 0; i < 1+r.Intn(5); i++ {
@@ -443,7 +452,7 @@ func frameCase(r *rand.Rand, o *hout.Out, idx int) {
 		for _, m := range got {
 			exp.WriteString(" " + wire.X(m))
 		}
-		exp.WriteString(" | rest x")
+		exp.WriteString(" | rest " + wire.X(c.tail))
 		o.Emit("corr", "C04", op.String(), exp.String())
 		ok := len(got) == len(c.msgs)
 		for i := 0; ok && i < len(got); i++ {
